@@ -496,6 +496,49 @@ def m_minmax(ex, p, call, k):
     k(p, z3.If(le, a, b) if meth == 'min' else z3.If(le, b, a))
 
 
+def m_clamp(ex, p, call, k):
+    """Ord::clamp(x, lo, hi) on unsigned machine integers (std panics when lo > hi)"""
+    a, lo, hi = (scalar(ex, p, v) for v in call.args[:3])
+    if not (isinstance(a, z3.ExprRef) and z3.is_bv(a)):
+        return NotImplemented
+    # a bound given as a named constant of another crate (`Semaphore::MAX_PERMITS`): its value is not in the MIR - an unconstrained constant
+    named = any(isinstance(v, Const) for v in (lo, hi))
+    lo, hi = (z3.BitVec('const:' + v.text.strip(), a.size()) if isinstance(v, Const) else v for v in (lo, hi))
+    if not all(isinstance(v, z3.ExprRef) and z3.is_bv(v) for v in (lo, hi)) or not (a.size() == lo.size() == hi.size()):
+        return NotImplemented
+    if call.argops and is_signed(ex.operand_type(call.frame, call.argops[0])):
+        return NotImplemented
+    bad = z3.UGT(lo, hi)
+    if not named and ex.feasible(p.pc, bad):     # (a named constant as a bound is assumed to make a valid range)
+        q = p.clone()
+        q.pc.append(bad)
+        q.events.append(Event('panic', call.short, (), None, call.span, call.depth))
+        ex.end_path(q, 'panic', call.short)
+    p.pc.append(z3.Not(bad))
+    k(p, z3.If(z3.ULT(a, lo), lo, z3.If(z3.UGT(a, hi), hi, a)))
+
+
+def m_str_boundary_op(ex, p, call, k):
+    """String::truncate(n) / String::split_off(n) / str::split_at(n) / String::insert(_str)(n, ..) / String::remove(n) / drain/replace_range: std panics when the byte offset is inside the string
+    but not on a char boundary (and, except for truncate, when it is past the end).  The content of the string is unknown to the executor, so
+    unless the offset is provably 0 the panic branch is feasible: it is forked, with the condition recorded."""
+    meth = call.short.rsplit('::', 1)[-1]
+    n = scalar(ex, p, call.args[1]) if len(call.args) > 1 else None
+    if not (isinstance(n, z3.ExprRef) and z3.is_bv(n)):
+        return NotImplemented
+    if not ex.feasible(p.pc, n != 0):
+        return NotImplemented
+    s = call.args[0]
+    sv = ex.deref(p, s) if isinstance(s, Ptr) else s
+    nb = z3.Bool(f'char_boundary({vname(sv)},{n})')
+    q = p.clone()
+    q.pc += [n != 0, z3.Not(nb)]
+    q.events.append(Event('panic', call.short, (sv, n), None, call.span, call.depth, 'not a char boundary'))
+    ex.end_path(q, 'panic', call.short + ': byte offset is not a char boundary')
+    p.pc.append(z3.Or(n == 0, nb))
+    ex.opaque_call(p, call, k)
+
+
 def m_int_method(ex, p, call, k):
     meth = call.short.rsplit('::', 1)[-1]
     a = scalar(ex, p, call.args[0])
@@ -961,6 +1004,8 @@ GLOBAL_MODELS = [
     (R(r' as (FnOnce|FnMut|Fn)(<.*>)?>::(call_once|call_mut|call)$'), m_fn_call),
     (R(r' as (PartialEq|PartialOrd)>::(eq|ne|lt|le|gt|ge)$'), m_cmp),
     (R(r'(^|::)(min|max)$| as Ord>::(min|max)$'), m_minmax),
+    (R(r' as Ord>::clamp$|(^|::)(usize|u64|u32|u16|u8)::clamp$'), m_clamp),
+    (R(r'(^|::)String::(truncate|split_off|insert|insert_str|remove)$|(^|::)str::(split_at|split_at_mut)$'), m_str_boundary_op),
     (R(r'(^|::)num::\w+$'), m_int_method),
     (R(r' as IntoFuture>::into_future$'), m_identity),
     (R(r'Pin::new(_unchecked)?$|Pin::(as_mut|get_mut|get_unchecked_mut|into_inner|get_ref)$|convert::identity$|^identity$'), m_identity),
